@@ -174,7 +174,7 @@ def fresnel_magnitude_oracle(path):
     return ms, mp
 
 
-def ray_integral_oracle(path, weight):
+def ray_integral_oracle(path, weight, beta=None):
     """integral of weight(ice, z) ds along the ray by adaptive quadrature of the ray equation
     (sin(theta) n(z) = const along a path in stratified ice), independent of the code's grids and antiderivatives"""
     import scipy.integrate
@@ -193,7 +193,8 @@ def ray_integral_oracle(path, weight):
     if not isinstance(path, BasicRayTracePath):
         return sum(ray_integral_oracle(q, weight) for q in path.paths)
     ice = path.ice
-    beta = float(path.n0 * np.sin(path.theta0))
+    if beta is None:
+        beta = connecting_beta(path)[0]
 
     def leg(za, zb, turning):
         lo, hi = min(za, zb), max(za, zb)
@@ -217,14 +218,89 @@ def ray_integral_oracle(path, weight):
     return leg(path.z0, zt, True) + leg(path.z1, zt, True)
 
 
+_BETA_CACHE = {}
+
+
+def connecting_beta(path):
+    """Snell constant beta* of the ray that really JOINS the path's endpoints in the ice's own index profile, found by
+    secant steps on the quadrature of the horizontal distance R(beta) = int tan(theta) dz, starting from the launch angle the
+    tracer reports.  Returns (beta*, rho - R(beta*), dR/dbeta).
+    Why: along the z-parametrised ray the time of flight int n^2 / sqrt(n^2 - beta^2) dz / c is ill-conditioned in beta for
+    nearly horizontal rays (d ln T / d ln beta = tan^2 theta ~ 1e3); the tracer's launch angle is exact only for ITS model
+    of the ice (uniform index below z_uniform, beta = 0 forms below the beta tolerance), so the ray launched at the reported
+    angle in the true profile ends a few decimetres from the receiver and its travel time is not that of the path between
+    the endpoints.  The time of flight between two POINTS is stationary (Fermat / Hamilton: dT/dbeta = beta dR/dbeta / c),
+    so T(beta) + beta (rho - R(beta)) / c is correct to second order in the miss distance; the secant steps make the miss
+    negligible and tof_oracle adds the remaining second-order term (rho - R)^2 / (c dR/dbeta) to its allowance."""
+    from pyrex.ray_tracing import BasicRayTracePath
+    key = id(path)
+    state = (float(path.theta0), tuple(np.asarray(path.from_point, float)), tuple(np.asarray(path.to_point, float)))
+    if key in _BETA_CACHE and _BETA_CACHE[key][0] == state:
+        return _BETA_CACHE[key][1]
+    b0 = float(path.n0 * np.sin(path.theta0))
+    rho = float(path.rho)
+
+    def R(b):
+        return ray_integral_oracle(path, lambda ice, z: b / float(ice.index(z)), beta=b)
+    best = (b0, float("nan"), float("nan"))
+    try:
+        with np.errstate(all="ignore"):
+            b, r = b0, R(b0)
+            dR = float("nan")
+            for _ in range(4):
+                h = max(abs(b) * 1e-7, 1e-10)
+                nmin = min(float(path.ice.index(path.z0)), float(path.ice.index(path.z1)))
+                if not path.direct:
+                    h = -h                                 # stay on the side where both endpoints are still reached
+                elif b + h >= nmin:
+                    h = -h
+                r2 = R(b + h)
+                dR = (r2 - r) / h
+                best = (b, rho - r, dR)
+                if not np.isfinite(dR) or dR == 0 or abs(rho - r) <= 1e-9 * max(rho, 1.0):
+                    break
+                b_new = b + (rho - r) / dR
+                if not (0 <= b_new < float(path.ice.n0)) or not np.isfinite(b_new):
+                    break
+                r_new = R(b_new)
+                if not np.isfinite(r_new) or abs(rho - r_new) >= abs(rho - r):
+                    break
+                b, r = b_new, r_new
+                best = (b, rho - r, dR)
+    except Exception:
+        pass
+    if len(_BETA_CACHE) > 2000:
+        _BETA_CACHE.clear()
+    _BETA_CACHE[key] = (state, best)
+    return best
+
+
 def attenuation_exponent_oracle(path, f):
     """integral of ds / L(z, f) along the ray"""
     return ray_integral_oracle(path, lambda ice, z: 1.0 / float(ice.attenuation_length(z, f)))
 
 
 def tof_oracle(path):
-    """time of flight = integral of n ds / c along the ray"""
-    return ray_integral_oracle(path, lambda ice, z: float(ice.index(z)) / 299792458.0)
+    """time of flight between the path's endpoints = integral of n ds / c along the ray joining them; for the refracted
+    paths evaluated at the connecting Snell constant with the first-order (Fermat) miss correction"""
+    from pyrex.ray_tracing import BasicRayTracePath
+    T = ray_integral_oracle(path, lambda ice, z: float(ice.index(z)) / 299792458.0)
+    if isinstance(path, BasicRayTracePath):
+        b, miss, dR = connecting_beta(path)
+        if np.isfinite(miss):
+            T += b * miss / 299792458.0
+    return T
+
+
+def tof_second_order(path):
+    """remaining second-order term of the Fermat correction: (rho - R)^2 / (c |dR/dbeta|) (twice the Taylor remainder)"""
+    from pyrex.ray_tracing import BasicRayTracePath
+    if not isinstance(path, BasicRayTracePath):
+        return 0.0
+    b, miss, dR = connecting_beta(path)
+    if not (np.isfinite(miss) and np.isfinite(dR)) or dR == 0:
+        return float("inf") if not np.isfinite(miss) else 0.0
+    return miss * miss / (299792458.0 * abs(dR))
 
 
 K_LOG1_TOF = "specialized-tof-log1-cancellation(C01:specialized-log1-cancellation)"
@@ -277,8 +353,8 @@ def tof_allowance(path, T_or):
             zt = math.log((ice.n0 - beta) / ice.k) / ice.a
             R = beta / (ice.k * ice.a * math.exp(ice.a * zt))
             tol += 4 * math.sqrt(2 * R * path.dz) * beta / 299792458.0
-        return tol
-    return 1e-4 * T_or
+        return tol + tof_second_order(path)
+    return 1e-4 * T_or + tof_second_order(path)
 
 
 def attenuation_allowance(path, f, I_or):
@@ -404,6 +480,9 @@ def fixed_cases():
     # nearly horizontal refracted ray whose first depth grid has a single node (linspace(..., 1): step = nan)
     a, b = [0.0, 0.0, -132.43983887845013], [-28.45448658053962, 90.75169159342167, -134.05176547190752]
     out.append(("basic", {"tracer": "BasicRayTracer", "from": a, "to": b}, BasicRayTracer(a, b)))
+    # both endpoints deep below z_uniform, ray nearly horizontal (secant of the ray angle ~ 170)
+    a, b = [-70.27029484231639, 0.0, -881.3825847866376], [-452.3974861826025, -582.1458153110348, -877.230682432775]
+    out.append(("specialized", {"tracer": "SpecializedRayTracer", "from": a, "to": b, "near_z_uniform": "deep-horizontal"}, SpecializedRayTracer(a, b)))
     # nearly vertical (beta below the tracer's beta tolerance) across z_uniform
     a, b = [0.0, 0.0, -900.0], [1.5, 0.5, -150.0]
     out.append(("specialized", {"tracer": "SpecializedRayTracer", "from": a, "to": b}, SpecializedRayTracer(a, b)))
@@ -883,6 +962,7 @@ def probes(ctx, cases_in):
                                  kind, tof, T_or, abs(tof - T_or) / T_or), {"kind": "tof", **base})
             except Exception as ex:
                 stats["oracle_errors"] = stats.get("oracle_errors", 0) + 1
+                stats.setdefault("oracle_error_sample", repr(ex)[:300])
             # polarization vectors
             pol = rand_pol(rng)
             with np.errstate(all="ignore"):
@@ -975,6 +1055,7 @@ def probes(ctx, cases_in):
                 if not err <= tol:
                     ctx.fail("factor:%s:%d" % (tag, si), "%s.propagate output is not (s/p amplitude) x attenuation(|f|) x Fresnel applied per frequency: error %.3g > %.3g" % (kind, err, tol), rep)
     ctx.extra["probe_counts"] = stats
+    ctx.oblige("probe:oracles-ran", stats.get("oracle_errors", 0) == 0, "%d oracle evaluations raised: %s" % (stats.get("oracle_errors", 0), stats.get("oracle_error_sample", "")))
 
 
 # ---------------------------------------------------------------------------- inputs of every Signal kind
@@ -1204,8 +1285,7 @@ def probe_path_histories(ctx, cases_in):
     """Operation sequences on ONE path object: query (tof / attenuation / propagate fill the lazy caches), change an
     endpoint -- by assignment, by augmented assignment of the stored array (`path.to_point += off`), by in-place change
     followed by re-assignment of the same object -- or dz, query again.  After every change the path must behave like a
-    path constructed with its current attributes: same delay (also judged against the quadrature of n ds / c), same
-    attenuation, same propagate output."""
+    path constructed with its current attributes: same delay, same attenuation, same propagate output."""
     import pyrex
     from pyrex.ray_tracing import BasicRayTracePath, SpecializedRayTracePath, UniformRayTracePath
     rng = ctx.rng
@@ -1283,14 +1363,8 @@ def probe_path_histories(ctx, cases_in):
                          "%s after `%s` of %s: the path does not behave like a path with its current attributes (delay %.9g s vs %.9g s for a new path; attenuation %s vs %s)" % (
                              kind, how, ops[-1]["attribute"], got["tof"], ref["tof"], got["att"].tolist(), ref["att"].tolist()), rep)
                 break
-            try:
-                with np.errstate(all="ignore"):
-                    T_or = tof_oracle(path)
-                if np.isfinite(T_or) and T_or > 0 and not abs(got["tof"] - T_or) <= tof_allowance(path, T_or) + (log1_tof_bound(path) if isinstance(path, SpecializedRayTracePath) else 0.0):
-                    ctx.fail("path-history-tof:%s:%s" % (kind, how), "%s after `%s`: the applied delay %.9g s is not the time of flight %.9g s of the path's current endpoints" % (kind, how, got["tof"], T_or), rep)
-                    break
-            except Exception:
-                pass
+            # (no quadrature check here: after an endpoint is moved the object keeps its launch angle and is no longer a ray
+            #  joining its endpoints, so 'the time of flight between the endpoints' is not what it represents)
     ctx.extra["path_history_counts"] = stats
 
 
